@@ -30,7 +30,7 @@ RULE = (
 )
 ADVANCES = (3, IDLE - 1, IDLE, IDLE + 1)
 MENU = {k: list(v) for k, v in simnet.MENU_CONN.items()}
-MENU["recv"] = MENU["recv"] + ["slow"]
+MENU["recv"] = MENU["recv"] + ["slow", "slow2"]
 MENU["settimeout"] = ["oserror"]  # also a failure while the connection is being set up
 
 
@@ -95,9 +95,11 @@ class World:
         self.cfg = cfg
         self.net = stacks.new_net(None, menu=MENU, servers=(stacks.H1,))
         self.net.slow_by = SLOW if idle != 2.5 else 2
+        # a reply that takes longer than the idle timeout but arrives within the socket timeout (20 s)
+        self.net.slow2_by = IDLE + 2 if idle != 2.5 else 3
         ops.preload(self.net)
         self.obj = stacks.build("pooled", self.net, max_pool_size=mps, ignore_exc=ign,
-                                pool_idle_timeout=idle, default_noreply=False, connect_timeout=3, timeout=7)
+                                pool_idle_timeout=idle, default_noreply=False, connect_timeout=3, timeout=20)
         self.obj.client_class = RecClient
         self.pool = self.obj.client_pool
         self.released_at = {}  # id(client) -> true time of its last release
@@ -218,6 +220,15 @@ class World:
             bad.append(("healthy-connection-not-reused",
                         f"{op.label} opened a new connection although an idle one aged "
                         f"{first_ok[2]}s (timeout {idle}) was available"))
+        # a connection on which the call succeeded goes back to the pool open, however long the call took
+        if not inner_raised and op.name != "quit" and not [h for h in net.hard if h[0] == call]:
+            for sid in used_socks:
+                sk = net.socks[sid]
+                idle_in_pool = any(c.sock is sk for c in pool._free_objs)
+                if sk.state != "connected" or not idle_in_pool:
+                    bad.append(("healthy-connection-dropped-at-release",
+                                f"{op.label} succeeded on socket {sid}, which is "
+                                + ("closed" if sk.state != "connected" else "not idle in the pool") + " afterwards"))
         # quit is a deliberate discard
         if op.name == "quit":
             for c in self.checked:
